@@ -137,6 +137,7 @@ def _exit(fn):
     def int_const(e):
         return isinstance(e, ast.Constant) and type(e.value) is int
 
+    unpack = {}
     onerror_test = [None]
     phase = 0     # 0 prologue, 1 depth adjusted by decorator, 2 frames added, 3 list built, 4 flag set, 5 logged, 6 onerror, 7 returned
     effects = []
@@ -161,6 +162,10 @@ def _exit(fn):
                     and isinstance(el[3].value, ast.Name) and len({el[0].id, el[1].id, el[3].value.id}) == 3 \
                     and el[1].id != el[2].id and el[3].value.id != el[2].id:
                 depth_name, options_name = el[1].id, el[3].value.id
+                # positions of `logger._options` that are read: the depth, the tail; the others are dropped
+                unpack["depth_pos"] = 1
+                unpack["dropped"] = [0, 2]
+                unpack["rest_from"] = 3
                 continue
             raise Unsupported("unpacking of logger._options: " + s)
         # decorator adjustment: `if from_decorator: depth += K` / `depth = depth + K` / `depth += K if from_decorator else 0`
@@ -243,7 +248,9 @@ def _exit(fn):
         raise Unsupported("unexpected statement in __exit__ (phase %d): %s" % (phase, s))
     if phase != 7 or depth_incr is None:
         raise Unsupported("__exit__ misses options/depth/_frames/log/return")
-    return tests, effects, depth_incr, ret_expr, default_frames, onerror_test[0], TL
+    # the list handed to `_log` (checked above against `want_list`, whether assigned first or written inline)
+    unpack["slots"] = ["excTriple", "depthAdjusted", "constTrue", "rest"]
+    return tests, effects, depth_incr, ret_expr, default_frames, onerror_test[0], TL, unpack
 
 
 def _fn_kind(fn):
@@ -291,6 +298,42 @@ def _flag_store(tree, store):
     if parts[0] in ("logger", "self") and all(p.isidentifier() for p in parts) and "thread_locals" not in parts:
         return "shared"          # an attribute of an object every thread sees (Core, Logger, the Catcher)
     raise Unsupported("guard flag storage not understood: " + store)
+
+
+def _option_names(tree):
+    """the names of the logger options in the order `Logger.__init__` packs them into `self._options`, the
+    order `Logger._log` unpacks its `options` argument, and the constant K of `get_frame(depth + K)`"""
+    logger = [n for n in tree.body if isinstance(n, ast.ClassDef) and n.name == "Logger"]
+    if len(logger) != 1:
+        raise Unsupported("class Logger not found")
+    ms = _methods(logger[0])
+    init_names = None
+    for node in ast.walk(ms["__init__"]):
+        if isinstance(node, ast.Assign) and [U(t) for t in node.targets] == ["self._options"]:
+            if not isinstance(node.value, ast.Tuple) or not all(isinstance(e, ast.Name) for e in node.value.elts) \
+                    or init_names is not None:
+                raise Unsupported("Logger.__init__: self._options is not one tuple of names")
+            init_names = [e.id for e in node.value.elts]
+    log_names = None
+    frame_extra = None
+    for node in ast.walk(ms["_log"]):
+        if isinstance(node, ast.Assign) and U(node.value) == "options" and len(node.targets) == 1:
+            t = node.targets[0]
+            if not isinstance(t, ast.Tuple) or not all(isinstance(e, ast.Name) for e in t.elts) or log_names is not None:
+                raise Unsupported("Logger._log: options is not unpacked into one tuple of names")
+            log_names = [e.id for e in t.elts]
+        if isinstance(node, ast.Call) and U(node.func) == "get_frame" and len(node.args) == 1:
+            a = node.args[0]
+            if isinstance(a, ast.BinOp) and isinstance(a.op, ast.Add) and U(a.left) == "depth" \
+                    and isinstance(a.right, ast.Constant) and type(a.right.value) is int and frame_extra is None:
+                frame_extra = a.right.value
+            else:
+                raise Unsupported("Logger._log: get_frame argument: " + U(a))
+    if init_names is None or log_names is None or frame_extra is None:
+        raise Unsupported("option names / get_frame(depth + K) not found")
+    if len(set(init_names)) != len(init_names) or len(set(log_names)) != len(log_names):
+        raise Unsupported("duplicate option names")
+    return init_names, log_names, frame_extra
 
 
 def _call_args_ok(call):
@@ -424,7 +467,8 @@ def generate():
             raise Unsupported("Catcher.__aexit__ is not `return self.__exit__(type_, value, traceback_, _frames=<n>)`: " + U(axb[0]))
         async_frames = axc.keywords[0].value.value
 
-        tests, effects, depth_incr, ret_expr, sync_frames, onerror_test, store = _exit(ms["__exit__"])
+        tests, effects, depth_incr, ret_expr, sync_frames, onerror_test, store, unpack = _exit(ms["__exit__"])
+        init_names, log_names, frame_extra = _option_names(tree)
         flag_store = _flag_store(tree, store)
         term, typ = Tr({"reraise": ("reraise", "bool")}).tr(ret_expr)
         if typ != "bool":
@@ -532,6 +576,18 @@ def generate():
         body += "/-- `functools.update_wrapper(catch_wrapper, function)`: the wrapper's `__dict__` is updated with the\n" \
                 "    decorated function's, so a marker attribute travels outwards through a stack of decorators -/\n"
         body += "def wrapperCopiesDict : Bool := true\n\n"
+        body += "/-- `self._options = (%s)` in `Logger.__init__` -/\n" % ", ".join(init_names)
+        body += "def initOptionNames : List (List Char) := [%s]\n" % ", ".join(lean_chars(n) for n in init_names)
+        body += "/-- `(%s) = options` in `Logger._log` -/\n" % ", ".join(log_names)
+        body += "def logOptionNames : List (List Char) := [%s]\n" % ", ".join(lean_chars(n) for n in log_names)
+        body += "/-- `_log` takes the record's frame with `get_frame(depth + %d)` -/\n" % frame_extra
+        body += "def logFrameExtra : Nat := %d\n" % frame_extra
+        body += "/-- `_, depth, _, *options = logger._options` in `Catcher.__exit__`: position of the depth, positions\n" \
+                "    dropped, start of the tail kept -/\n"
+        body += "def exitDepthPos : Nat := %d\ndef exitDropped : List Nat := [%s]\ndef exitRestFrom : Nat := %d\n" % (
+            unpack["depth_pos"], ", ".join(str(i) for i in unpack["dropped"]), unpack["rest_from"])
+        body += "/-- the list handed to `_log`: `[(type_, value, traceback_), depth, True, *options]` -/\n"
+        body += "def catchSlots : List CatchSlot := [%s]\n\n" % ", ".join("." + x for x in unpack["slots"])
         body += "/-- the guard flag is an attribute of `%s` -/\n" % store
         body += "def flagStore : FlagStore := .%s\n\n" % flag_store
         body += "/-- `AsyncGenCatchWrapper.athrow` is `return await self._gen.athrow(*args, **kwargs)` -/\n"
